@@ -1294,6 +1294,7 @@ _CONCRETE_METHODS = {
     ("SymPySet", "difference"): lambda i, s, o: SymPySet([x for x in s if i.contains(o, x) is False or
                                                           (i.contains(o, x) is not True and not i.branch_truth(i.wrapb(i.contains(o, x)), "diff"))]),
     ("SymPySet", "discard"): lambda i, s, x: _pyset_discard(i, s, x),
+    ("SymPySet", "remove"): lambda i, s, x: _pyset_remove(i, s, x),
     ("SymPySet", "update"): lambda i, s, *o: [i.pyset_add(s, x) for oo in o for x in i.iterate(oo)] and None,
     ("str", "split"): lambda i, s, *a: s.split(*a),
     ("str", "count"): lambda i, s, x: s.count(x),
@@ -1307,6 +1308,13 @@ _CONCRETE_METHODS = {
     ("str", "replace"): lambda i, s, a, b: s.replace(a, b),
     ("tuple", "count"): lambda i, t, x: t.count(x),
 }
+
+
+def _pyset_remove(i, s, x):
+    r = i.contains(s, x)
+    if r is False or (r is not True and not i.branch_truth(i.wrapb(r), "set.remove")):
+        raise exc("KeyError", x)
+    _pyset_discard(i, s, x)
 
 
 def _set_union(i, s, *others):
